@@ -165,7 +165,7 @@ Qed.
 
 Lemma collect_list_HH v dc p :
   VamInv c v -> MM ms0 v [] -> HHc v [] -> Defrag.c_moves (dc_ctx dc) = [] -> PassProofs.pass_running p ->
-  VamGran.GV v ->
+  VamGran.GV c v ->
   let '(v', r) := collect_list c v dc p in match r with OK _ => HHc v' [] | _ => True end.
 Proof.
   intros HI HM HH0 Hidle Hrun HG1. unfold collect_list.
@@ -212,7 +212,7 @@ Proof.
 Qed.
 
 Lemma pass_loop_HH fuel : forall v run p,
-  VamInv c v -> MM ms0 v [] -> HHc v [] -> run_idle run -> 0 <= dr_max_bytes run -> 0 <= dr_max_allocs run -> PassProofs.pass_running p -> VamGran.GV v ->
+  VamInv c v -> MM ms0 v [] -> HHc v [] -> run_idle run -> 0 <= dr_max_bytes run -> 0 <= dr_max_allocs run -> PassProofs.pass_running p -> VamGran.GV c v ->
   let '(v', run', r) := pass_loop c fuel v run p in match r with OK _ => HHc v' [] | _ => True end.
 Proof.
   induction fuel as [|f IH]; intros v run p HI HM HH0 Hidle Hb Ha Hrun HG; cbn [pass_loop]; [exact I|].
@@ -315,7 +315,7 @@ Qed.
 (* ---------------------------------------------------------------- one defragmentation call *)
 
 Lemma dexec_HH v run o :
-  VamInv c v -> MM ms0 v [] -> HHc v [] -> VamGran.GV v -> drun_ok v run -> dop_ok v run o ->
+  VamInv c v -> MM ms0 v [] -> HHc v [] -> VamGran.GV c v -> drun_ok v run -> dop_ok v run o ->
   let '(v', run', r, dr) := dexec c v run o in match r with OK _ | ER _ => HHc v' [] | _ => True end.
 Proof.
   intros HI HM H HV Hr Hok. destruct o as [flags pool mb ma| |ds|]; cbn [dexec].
@@ -349,7 +349,7 @@ Let Hmax := ca_max c Ha.
 Let Hlarge := ca_large c Ha.
 
 Theorem dstep_preservesH v run o f :
-  VamInv c v -> MapInv v [] -> PersistInv c v [] -> VamGran.GV v -> drun_ok v run -> dop_ok v run o ->
+  VamInv c v -> MapInv v [] -> PersistInv c v [] -> VamGran.GV c v -> drun_ok v run -> dop_ok v run o ->
   let '(v', run', r, calls, dr) := dstep c v run o f in
   r <> RPanic -> r <> RStuck -> PersistInv c v' [] /\ maps_hv c (m_mems (v_m v)) calls.
 Proof.
@@ -367,7 +367,7 @@ Proof.
   assert (H0 : HH c ms0 v0 []) by (split; [apply LogHV_start|apply Hps; exact HP]).
   assert (Hr0 : drun_ok v0 run) by (destruct run as [rn|]; [apply run_ok_set_m; exact Hr|exact I]).
   assert (Hok0 : dop_ok v0 run o) by (destruct o; cbn in *; auto).
-  pose proof (dexec_HH c Hc Hmax Hlarge ms0 v0 run o I0 M0 H0 (VamGran.GR_set_m v _ HV) Hr0 Hok0) as E.
+  pose proof (dexec_HH c Hc Hmax Hlarge ms0 v0 run o I0 M0 H0 (VamGran.GR_set_m c v _ HV) Hr0 Hok0) as E.
   destruct (dexec c v0 run o) as (((v1 & run1) & r) & dr).
   intros Hp Hs. destruct r as [[]|code| |]; cbn in Hp, Hs; try congruence; destruct E as (L & P);
     (split; [apply Hps; exact P|exact L]).
